@@ -539,6 +539,14 @@ func c17Families(tier string) []explore.Family {
 		o := Render(c17.eng, src, map[string]any{})
 		judgeNum(r, "scaled-chain", func() any { return map[string]any{"template": trunc80(src), "steps": n} }, numResult{vals: []*big.Rat{want}}, true, o)
 	}})
+	nestedNum := [][2]string{{"n | minus: 1 | divided_by: ARG", "items | size"}, {"n | plus: ARG", "items | size"}, {"n | times: 2 | minus: ARG", "m | abs"}, {"n | plus: 1 | modulo: ARG", "items | size"},
+		{"n | divided_by: ARG | round: ARG", "items | size"}, {"n | abs | times: ARG", "f | ceil"}, {"str | plus: 0 | plus: ARG", "items | first"}, {"f | round: ARG", "items | size | minus: 2"}, {"n | minus: ARG | minus: ARG", "m | abs"}}
+	fams = append(fams, explore.Family{Name: "filtered-expressions-as-arguments", Count: int64(len(nestedNum)), Run: func(i int64, r *explore.Rec) {
+		c := nestedNum[i]
+		r.Trace()
+		r.Class("nested-arg")
+		nestedArgLaw(r, c17.eng, "wrong-value:filtered-expression-as-argument", c[0], c[1], map[string]any{"n": 10, "m": -4, "f": 2.345, "items": []any{3, 1, 2}, "str": "7"})
+	}})
 	return fams
 }
 
